@@ -4,3 +4,4 @@ import ShroudVerif.Props.C10
 import ShroudVerif.Props.C08
 import ShroudVerif.Props.C12
 import ShroudVerif.Props.C15
+import ShroudVerif.Props.C11
